@@ -226,7 +226,7 @@ func (vc *FuncVC) external(st *State, name string, fn *ssa.Function, args []Val,
 }
 
 func (vc *FuncVC) inline(st *State, fn *ssa.Function, args []Val, binds []Val, resT types.Type) []outcome {
-	fr := &Frame{fn: fn, regs: map[ssa.Value]Val{}, caller: st.fr, free: binds, locals: map[string]Val{}}
+	fr := &Frame{fn: fn, regs: map[ssa.Value]Val{}, caller: st.fr, free: binds}
 	for i, p := range fn.Params {
 		fr.regs[p] = args[i]
 	}
@@ -338,8 +338,10 @@ func (vc *FuncVC) applyContract(st *State, con *Contract, name string, fn *ssa.F
 			}
 		}
 	} else if !con.Pure {
+		// all locations are resolved in the pre-call state, then havocked
+		preEnv := &SpecEnv{g: st.g, st: st, heaps: pre, old: env.old, vars: vars, pkg: pkg}
 		for _, m := range con.Modifies {
-			vc.havocItem(st, env, m, name)
+			vc.havocItem(st, preEnv, m, name)
 		}
 	}
 	res := st.freshVal(resT, "res."+shortTail(name))
@@ -443,6 +445,20 @@ func (vc *FuncVC) mapHeapsOf(env *SpecEnv, m *Expr) ([]string, bool) {
 }
 
 func (vc *FuncVC) havocItem(st *State, env *SpecEnv, m *Expr, who string) {
+	if h, lo, hi, ok := vc.elemsRegion(env, m); ok {
+		if h != "" {
+			sort := st.g.heapSort[h]
+			if sort == "" {
+				sort = "(Array Int Int)"
+			}
+			old := st.cur(h, sort)
+			nh := st.g.heapConst(h, sort)
+			st.assume(fmt.Sprintf("(forall ((ha Int)) (! (=> (or (< ha %s) (>= ha %s)) (= (select %s ha) (select %s ha))) :pattern ((select %s ha))))", lo, hi, nh, old, nh))
+			st.heaps[h] = nh
+			st.markWritten(h)
+		}
+		return
+	}
 	if hs, ok := vc.mapHeapsOf(env, m); ok {
 		for _, h := range hs {
 			if _, known := st.g.heapSort[h]; known {
@@ -453,6 +469,12 @@ func (vc *FuncVC) havocItem(st *State, env *SpecEnv, m *Expr, who string) {
 	}
 	if hn, ok := modHeapName(m); ok {
 		for _, h := range vc.heapsOfName(env.pkg, hn) {
+			if _, known := st.g.heapSort[h]; !known {
+				// not touched yet in this run: declare it so that the havoc takes effect
+				if srt, ok := vc.g.sortOfHeapName(h); ok {
+					st.cur(h, srt)
+				}
+			}
 			if _, known := st.g.heapSort[h]; known {
 				st.havocHeap(h)
 			}
@@ -702,4 +724,69 @@ func (vc *FuncVC) intrinsic(st *State, name string, fn *ssa.Function, args []Val
 		return one(IntV(v))
 	}
 	return nil, false
+}
+
+// sortOfHeapName determines the SMT sort of a heap from its name (for heaps not touched yet).
+func (g *Gen) sortOfHeapName(h string) (string, bool) {
+	switch {
+	case h == "$alive":
+		return "(Array Int Bool)", true
+	case h == "$brk":
+		return "(Array Int Int)", true
+	case h == "mem.bool":
+		return "(Array Int Bool)", true
+	case strings.HasPrefix(h, "mem.arr."):
+		return "", false
+	case strings.HasPrefix(h, "mem."):
+		return "(Array Int Int)", true
+	case strings.HasPrefix(h, "$g."):
+		if gg, ok := g.DB.Ghosts[h]; ok {
+			if t, err := g.P.lookupType(gg.Typ, gg.Pkg); err == nil {
+				return smtSortOf(t), true
+			}
+		}
+		return "", false
+	}
+	base := h
+	if i := strings.Index(h, "#"); i >= 0 {
+		return "(Array Int Int)", !strings.HasPrefix(h, "map.")
+	}
+	parts := strings.Split(base, ".")
+	if len(parts) != 3 {
+		return "", false
+	}
+	sp, ok := g.P.Pkgs[parts[0]]
+	if !ok {
+		return "", false
+	}
+	o := sp.Pkg.Scope().Lookup(parts[1])
+	if o == nil {
+		return "", false
+	}
+	fname := parts[2]
+	if strings.HasPrefix(fname, "$") {
+		if gg, ok := g.DB.Ghosts[parts[0]+"."+parts[1]+"."+fname[1:]]; ok {
+			if t, err := g.P.lookupType(gg.Typ, gg.Pkg); err == nil {
+				return "(Array Int " + smtSortOf(t) + ")", true
+			}
+		}
+		return "", false
+	}
+	st, _ := o.Type().Underlying().(*types.Struct)
+	if st == nil {
+		return "", false
+	}
+	for i := 0; i < st.NumFields(); i++ {
+		if st.Field(i).Name() == fname {
+			ft := st.Field(i).Type()
+			switch u := ft.Underlying().(type) {
+			case *types.Array:
+				return "(Array Int (Array Int " + elemSort(u.Elem()) + "))", true
+			case *types.Slice, *types.Struct:
+				return "", false
+			}
+			return "(Array Int " + elemSort(ft) + ")", true
+		}
+	}
+	return "", false
 }
